@@ -46,6 +46,8 @@ def instances(tier):
         out.append({"phase": "pending", "gen": g})
         out.append({"phase": "after_failed_init", "gen": g})
         out.append({"phase": "backoff", "gen": g})
+        out.append({"phase": "initialised", "gen": g, "close_latency": 0.05})      # closing the transport takes 50 ms
+        out.append({"phase": "connecting", "gen": g, "quick_reinit": True})        # init() again while the old connect is still in flight
         for sc in ("down_queue", "connecting", "write_suspended", "backoff"):
             out.append({"phase": "sock_close", "gen": g, "scenario": sc})
         for st in range(6):
@@ -74,9 +76,45 @@ async def _noop_sub(*a, **kw):
     return None
 
 
+def _quick_reinit(ctx, p):
+    """shutdown() while the first connect is in flight (it takes 3 s), then init() again at a free instant - possibly before
+    the old attempt has resolved: the new session initialises, one connection is in use, every other one was closed."""
+    g = Gen(p["gen"])
+    inst = Installation.simple(g.n, n_acs=2, zones_per_ac=2)
+    ts = ctx.real("ts", 0, 2.5)
+    r = ctx.real("r", 0, 4, lo_strict=True)
+    with ApiRig(ctx, g, inst) as rig:
+        con = rig.console
+        rig.net.on_connect = lambda net, n: ("accept", 3.0 if n == 0 else 0.25)
+        rig.start()
+        done = {}
+
+        async def do_shutdown():
+            await rig.at.shutdown()
+            done["at"] = rig.loop.time()
+
+        rig.loop.vt_call_at(ts, lambda: rig.spawn(do_shutdown()))
+        rig.run(ts)
+        rig.init_result = None
+        rig.start(at=ts + r)
+        rig.run(ts + r + 20.0)
+        got = {a.ac_id: sorted(z.zone_id for z in a.zones) for a in rig.at.air_conditioners} if rig.at else None
+        detail = {"phase": "quick_reinit", "result": rig.init_result, "model": got, "conns": len(rig.net.conns)}
+        ctx.observe("result", rig.init_result)
+        ctx.check("at" in done, "nothing_after_shutdown", detail=dict(detail, why="shutdown() did not return"))
+        ctx.check(rig.init_result is True and rig.at.initialised and got == {0: [0, 1], 1: [2, 3]}, "reinit_works", detail=detail)
+        still_open = [c.index for c in rig.net.conns if not c.client_closed]
+        ctx.check(rig.net.max_open <= 1 and len(still_open) == 1, "all_transports_closed", detail=dict(detail, still_open=still_open, max_open=rig.net.max_open))
+        ctx.check(not rig.task_failures(), "reinit_works", detail=[str(e.get("exception")) for e in rig.task_failures()][:2])
+    for lab in expect_labels("quick"):
+        ctx.reach(lab)
+
+
 def run(ctx, p):
     if p["phase"] == "sock_close":
         return _sock_close(ctx, p)
+    if p.get("quick_reinit"):
+        return _quick_reinit(ctx, p)
     A = importlib.import_module("pyairtouch.api")
     S = socket_mod()
     g = Gen(p["gen"])
@@ -103,6 +141,8 @@ def run(ctx, p):
             return ("accept", lat)
 
         rig.net.on_connect = on_connect
+        if p.get("close_latency"):
+            rig.net.close_latency = p["close_latency"]
         if phase in ("handshake", "after_failed_init"):
             con.silent.add(STEPS[p.get("step", 2)])
         rig.start()
